@@ -196,6 +196,8 @@ def partial_transpose(
     )
 
     # Return the subsystems back to their original positions.
+    # Work on a copy: `dim` may be the caller's array.
+    dim = dim.copy()
     dim[:, sys] = np.flipud(dim[:, sys])
 
     dim = dim[:, (np.array(perm)).tolist()]
